@@ -207,9 +207,11 @@ def apply(state, op, ctx, case):
                          or (isinstance(idx, slice) and len(range(*idx.indices(n))) == 0)):
             state["labels"].add("empty-weighted(skipped)")
             return
-        if model["ns"] == "jax" and isinstance(idx, np.ndarray):
-            pass
-        sel = real[idx]
+        ridx = idx
+        if op["idx"].get("as_list") and isinstance(idx, np.ndarray) and model["ns"] != "jax":
+            ridx = idx.tolist()  # a plain Python list of bools / ints (JAX itself rejects list indices)
+            state["labels"].add("idx-as-list")
+        sel = real[ridx]
         msel = _select_model(model, idx)
         _agree(sel, msel, ctx, case, "select")
         if op["idx"]["kind"] in ("mask", "array") or (op["idx"]["kind"] == "slice" and op["idx"]["s"] not in (None, 1)):
@@ -279,8 +281,8 @@ _idx = st.one_of(
     st.fixed_dictionaries({"kind": st.just("slice"), "a": st.one_of(st.none(), st.integers(-5, 20)),
                            "b": st.one_of(st.none(), st.integers(-5, 30)), "s": st.sampled_from([None, 1, 2, 3, -1, -2])}),
     st.fixed_dictionaries({"kind": st.just("mask"), "seed": st.integers(0, 2**31 - 1), "p": st.sampled_from([0.2, 0.5, 0.9]),
-                           "allow_empty": st.booleans()}),
-    st.fixed_dictionaries({"kind": st.just("array"), "seed": st.integers(0, 2**31 - 1), "m": st.integers(1, 30)}),
+                           "allow_empty": st.booleans(), "as_list": st.booleans()}),
+    st.fixed_dictionaries({"kind": st.just("array"), "seed": st.integers(0, 2**31 - 1), "m": st.integers(1, 30), "as_list": st.booleans()}),
     st.fixed_dictionaries({"kind": st.just("empty")}),
 )
 
